@@ -2,6 +2,7 @@
 import sys, os, json, hashlib, subprocess, time, re, shutil, struct, glob, signal
 from concurrent.futures import ThreadPoolExecutor, as_completed
 
+sys.setrecursionlimit(20000)
 VERIF = os.path.dirname(os.path.dirname(os.path.abspath(__file__)))
 REPO = os.environ.get('VERIF_REPO', '/repo')
 BUILD = os.environ.get('VERIF_BUILD', os.path.join(VERIF, 'build'))
@@ -190,7 +191,7 @@ ASSUME_ALLOC = ['A1: the installed allocator returns a unique non-NULL pointer f
 PROPS = {
     'C03': dict(level='exploration', phases=[('asan', None, 60000, 600000)],
                 rule='one evaluation = one seeded construction history (W1) whose root handles are serialised and round-tripped; non-trivial = at least one root with a container or chunked string was compared byte-for-byte with the reference encoder and re-loaded; distinct = distinct plan digests'),
-    'C04': dict(level='exploration', phases=[('asan', None, 120000, 1200000)],
+    'C04': dict(level='exploration', phases=[('asan', None, 80000, 800000)],
                 rule='one evaluation = one seeded API history (W1) checked against the shadow ownership graph after every step; non-trivial = the history shared at least one item between two owners and released at least one item; distinct = distinct plan digests'),
     'C05': dict(level='fault_enumeration', phases=[('asan', None, 30000, 300000), ('asan', 3, 15000, 100000)],
                 rule='one evaluation = one CBOR sequence delivered over a fragmenting, closing connection to a cbor_load receiver (every retry checked), or one load scenario swept over every refused allocation k; non-trivial = at least one failing cbor_load call was observed and checked (NOTENOUGHDATA, MEMERROR, or a hard error); distinct = distinct plan digests'),
@@ -371,7 +372,7 @@ def set_path(node, path, val):
 
 def cbor_item_end(bs, off, depth=0):
     """End offset of the well-formed item starting at off, or None. Used only to cut sequences at item boundaries while shrinking."""
-    if off >= len(bs) or depth > 3000: return None
+    if off >= len(bs) or depth > 6000: return None
     ib = bs[off]; major, ai = ib >> 5, ib & 31
     if ai < 24: arg, hl = ai, 1
     elif ai == 24: arg, hl = (bs[off + 1] if off + 1 < len(bs) else None), 2
